@@ -698,9 +698,10 @@ static void fam_primes(bool thorough)
 	}
 	// lprime: p = kq+1
 	{
-		const unsigned long cfg[][2] = {{24, 10}, {32, 12}, {40, 16}, {48, 20}};
-		for (int ci = 0; ci < 4; ci++)
-			for (unsigned long s = 0; s < (thorough ? 256UL : 48UL); s++)
+		// the last five have a cofactor at least as long as q, so that q | k is a frequent draw (gcd(q, k) = 1 must hold)
+		const unsigned long cfg[][2] = {{24, 10}, {32, 12}, {40, 16}, {48, 20}, {12, 3}, {16, 4}, {20, 5}, {24, 6}, {32, 8}};
+		for (int ci = 0; ci < 9; ci++)
+			for (unsigned long s = 0; s < (thorough ? (ci < 4 ? 256UL : 1024UL) : (ci < 4 ? 48UL : 128UL)); s++)
 			{
 				std::string cid = "primes:lprime," + str(cfg[ci][0]) + "/" + str(cfg[ci][1]) + ",seed=" + str(s);
 				if (!R->mine() || !R->selected(cid)) continue;
